@@ -10,6 +10,7 @@ COMP = 120
 COMP_MULTI = 121
 COMP_FAN = 123
 COMP_MIX = 126
+COMP_HELPERS = 127
 KINDS = {'echo': (0, 1), 'device': (1, 1), 'ioport': (1, 0)}      # -> (kind, same_lock) of Model/Conc.v
 
 
@@ -536,6 +537,43 @@ def enc_mix_case(progs, trace):
     return c + list(trace)
 
 
+def enc_helper_case(progs, trace):
+    """programs that (also) call multi_send / multi_receive on the caller's list of the two sub-ports (Model/ConcHelpers.v): the list is
+    [1, 2] and the harness makes random.shuffle reverse it in place at every poll, so the k-th multi_receive of a thread polls in the
+    order the list has after k reversals - and a multi_send of the same thread after it walks the list as the last reversal left it"""
+    c = [2, len(progs)]
+    order = [1, 2]                 # world.sublist is shared by all threads; multi_receive copies it (list(ports)) before shuffling
+    for p in progs:
+        c.append(len(p))
+        for op in p:
+            if op[0] == 'send':
+                c += [0, op[-1]] + list(op[1])
+            elif op[0] == 'recv':
+                c += [1, op[-1], op[1]]
+            elif op[0] == 'msend':
+                c += [3, 2, 1, 2] + list(op[1])
+            elif op[0] == 'mrecv':
+                c += [4, 2, 2, 1]
+            else:
+                c += [2, op[-1]]
+    return c + list(trace)
+
+
+def replay_helpers(rec, runs, progs, mode):
+    """every run of a program that calls the helper functions is replayed on Model/ConcHelpers.v"""
+    cache, cases = {}, []
+    for trace, out, fail in runs:
+        c = enc_helper_case(progs, trace)
+        if tuple(c) not in cache:
+            cache[tuple(c)] = (out, None, 'multi-helpers:' + mode)
+            cases.append(c)
+    r2 = core.eval_cases(COMP_HELPERS, cases, lambda c: cache[tuple(c)])
+    rec['dis'] += r2['dis']; rec['ndis'] += r2['ndis']
+    for k, v in r2['dist'].items():
+        rec['dist'][k] = rec['dist'].get(k, 0) + v
+    return rec
+
+
 def replay_mix(rec, runs, progs, mode):
     """every run of a program without the helper functions is (also) replayed on Model/ConcMix.v"""
     cache, cases = {}, []
@@ -617,6 +655,10 @@ def job(j):
                     rec['fail'].append((fail[0], fail[1], {'component': 'multiport', 'programs': repr(progs), 'schedule': trace}))
         if not helper_use:
             replay_mix(rec, runs, progs, mode)
+        elif not any(op[0] in ('recv', 'iterp') and op[-1] == 0 for p in progs for op in p):
+            # (with the helper functions in use the harness reverses every polling order, the MultiPort's own sweep included, and the model
+            # sweeps in list order: programs that also receive on the MultiPort itself are left to the oracle)
+            replay_helpers(rec, runs, progs, mode)
         return (kind, mode, exhausted, len(runs)), rec
     if mode == 'explore':
         runs, exhausted = explore(kind, progs, arg[0], arg[1], arg[2])
@@ -698,6 +740,8 @@ def run(out):
     multi_progs += [
         [[('msend', m1)], [('mrecv',)], [('recv', 0, 1)]],                                                # the helper functions on one shared list of ports
         [[('msend', m1), ('msend', m2)], [('mrecv',), ('mrecv',)]],
+        [[('msend', m1), ('send', m2, 0)], [('mrecv',), ('iterp', 1)], [('send', m3, 2), ('mrecv',)]],   # helper calls mixed with sends through the MultiPort and directly
+        [[('msend', m1)], [('msend', m2)], [('mrecv',)], [('recv', 0, 2), ('recv', 0, 2)]],               # two helper senders: both sub-ports, drained by a helper and by a direct receiver
     ]
     # any mix of uses at once: every thread sends on, receives from and iterates over the MultiPort and its sub-ports as it likes
     fresh = [2000]
@@ -737,7 +781,7 @@ def run(out):
                 '(depth-first, stateless), for %d larger ones seeded random and priority schedules; each executed schedule is replayed on the model (same thread ids, same '
                 'steps) and the per-thread results, the final queue, the device buffer and the number of sleeps are compared; the oracle checks on the real run: no exception, '
                 'nothing lost / duplicated / invented, per-sender order, received objects are copies. MultiPort (fan-in from and fan-out to two EchoPorts, every lock and deque '
-                'scheduled): the same oracle on the real run; pure fan-in runs are replayed on ConcMulti.v, pure fan-out runs on ConcFan.v, and EVERY run without the helper functions - fan-in, fan-out and any mix of uses, random programs of 2-4 threads using all three ports included - on ConcMix.v; the helper functions multi_send / multi_receive on a shared list of ports (polled in an order other than the list order) are not modelled. Non-trivial: every run; distinct by schedule.'
+                'scheduled): the same oracle on the real run; pure fan-in runs are replayed on ConcMulti.v, pure fan-out runs on ConcFan.v, and EVERY run without the helper functions - fan-in, fan-out and any mix of uses, random programs of 2-4 threads using all three ports included - on ConcMix.v; runs that call the helper functions multi_send / multi_receive on a shared list of ports (polled in an order other than the list order) are replayed on ConcHelpers.v (a helper call expanded into the sends / drains it spells out, results folded back to one per call), except programs that also receive on the MultiPort itself (the harness reverses every polling order then, the sweep's too), which are left to the oracle. Non-trivial: every run; distinct by schedule.'
                 % (len(small), 2 if quick else 3, len(more)))
     from props import c10_copy
     ncopy = c10_copy.run(out, rng)
